@@ -35,6 +35,9 @@ pub struct Case {
     /// the hook): same plaintext, different aad; the body of one with tag and aad of the other must be rejected
     #[serde(default)]
     pub distant: u8,
+    /// the target message's aad EQUALS the session's info string (two independent inputs that happen to coincide)
+    #[serde(default)]
+    pub aad_is_info: bool,
 }
 
 pub struct C06;
@@ -171,11 +174,20 @@ impl Part for C06 {
                             if single && !t && suite.kem != crate::refmodel::Kem::X25519 {
                                 continue;
                             }
-                            v.push(Case { suite, mode, pos, shape, iface, last: false, distant: 0 });
+                            v.push(Case { suite, mode, pos, shape, iface, last: false, distant: 0, aad_is_info: false });
                             if pos == 2 && !single && (shape % 4 == 0 || t) && mode == Mode::Base {
-                                v.push(Case { suite, mode, pos, shape, iface, last: true, distant: 0 });
+                                v.push(Case { suite, mode, pos, shape, iface, last: true, distant: 0, aad_is_info: false });
                             }
                         }
+                    }
+                }
+            }
+        }
+        for suite in seal_suites() {
+            if suite.kdf == suite.kem.kdf() && (t || matches!(suite.kem, crate::refmodel::Kem::X25519 | crate::refmodel::Kem::P256)) {
+                for iface in IFACES {
+                    for shape in [2usize, 5] {
+                        v.push(Case { suite, mode: Mode::Base, pos: 0, shape, iface, last: false, distant: 0, aad_is_info: true });
                     }
                 }
             }
@@ -187,7 +199,7 @@ impl Part for C06 {
                 }
                 for distant in [8u8, 16, 24, 32, 40, 48, 56, 60, 62, 63] {
                     for iface in [Iface::Open, Iface::OpenInPlace] {
-                        v.push(Case { suite, mode: Mode::Base, pos: 0, shape: 0, iface, last: false, distant });
+                        v.push(Case { suite, mode: Mode::Base, pos: 0, shape: 0, iface, last: false, distant, aad_is_info: false });
                     }
                 }
             }
@@ -246,6 +258,7 @@ impl Part for C06 {
                 a.push(i as u8); // aads of different messages differ
                 a
             };
+            let aad = if c.aad_is_info && i == c.pos { info.clone() } else { aad };
             let ct = refctx.seal_at(base + i as u128, &aad, &pt);
             msgs.push(Msg { pt, aad, ct });
         }
@@ -286,6 +299,12 @@ impl Part for C06 {
             let mut a = target.aad.clone();
             a.extend_from_slice(&ext);
             vars.push(mk(body, tag, &a, None, format!("aad extended by {:?}", ext.len())));
+        }
+        // the aad replaced by other strings of the session (none of them is the aad, unless the case says so)
+        for (name, other) in [("the info string", info.clone()), ("the encapsulated key", enc.clone()), ("the recipient public key", k.pk_r.clone())] {
+            if other != target.aad {
+                vars.push(mk(body, tag, &other, None, format!("aad replaced by {}", name)));
+            }
         }
         let alloc = matches!(c.iface, Iface::Open | Iface::SingleShotOpen);
         if alloc {
